@@ -67,30 +67,27 @@ func randTitle(r *hx.Rand, n int, tagged bool) []byte {
 func post(q *request) { do(q.line()) }
 
 func generate() {
-	r := run.R
 	do("consts")
+	if *stream == "text" || *stream == "all" {
+		generateText()
+	}
+	if *stream == "posts" || *stream == "all" {
+		generatePosts()
+	}
+}
 
+func generateText() {
+	r := run.R
 	// ---- pure streams -------------------------------------------------------------------------------------
 	sym := []byte{0x1b, '[', '1', ';', 'H', 'm', 'x'}
 	maxLen := 4
 	if run.Thorough() {
 		maxLen = 6
 	}
-	var enum func(prefix []byte, left int)
-	enum = func(prefix []byte, left int) {
-		do("defuse " + hx.Hex(prefix))
-		if left == 0 {
-			return
-		}
-		for _, c := range sym {
-			enum(append(append([]byte{}, prefix...), c), left-1)
-		}
-	}
-	// breadth first would give the smallest failing case first; depth first with increasing bound does as well
+	// shortest strings first, so that the first failing case is minimal
 	for l := 0; l <= maxLen; l++ {
 		enumLen(sym, l, func(b []byte) { do("defuse " + hx.Hex(b)) })
 	}
-	_ = enum
 	for _, s := range []string{"\x1b[\x1b[2JH", "\x1b\x1b\x1bH", "\x1b[1;2H\x1b[3A", "\x1bH", "\x1b[[[[J", "a\x1b[1,2fz", "\x1b[?25H", "\x1b[2J\x1b[H\x1b[s", "\x1b[12", "\x1b"} {
 		do("defuse " + hx.Hex([]byte(s)))
 	}
@@ -107,6 +104,10 @@ func generate() {
 		do("trim " + hx.Hex(randLine(r, 30)))
 	}
 
+}
+
+func generatePosts() {
+	r := run.R
 	// ---- titles of every length, every author class, with and without a class ------------------------------------
 	authors := [][2]string{{"CodingMan", "WhoAmI"}, {"test0", "EditExp"}, {"SYSOP", "WhoAmI"}}
 	for _, ab := range authors {
